@@ -141,7 +141,7 @@ func (unpacker *RtpUnpackerAac) TryUnpackOne(list *RtpPacketList) (unpackedFlag 
 				unpacker.onAvPacket(outPkt)
 
 				list.Head.Next = p.Next
-				list.Size -= packetCount
+				list.Size -= packetCount + 1 // 注意，packetCount没有包含第一个分片
 				return true, p.Packet.Header.Seq
 			} else {
 				Log.Errorf("cache size bigger then total size. cacheSize=%d, totalSize=%d",
